@@ -3,6 +3,10 @@
 import json, subprocess
 
 CHECKS = {
+ "C19": dict(category="model_checking", design="§3 C19",
+   text="All sequences of length <= 3 (quick) / 4 (thorough) over ~55 drawing and style commands run through the real evaluator with the real SVG platform and WriteSVG; the output must parse as XML; flattening group inheritance and root attributes must give exactly the shape list of a reference pen state machine written from docs/builtins.md (one shape per command, in order, geometry x10 with y flipped for every kind of shape, stroke/fill/width/dash/linecap/font in effect at drawing time); out-of-domain arguments must terminate with completion or the documented panic; single commands also go through the evy run --svg-out binary.",
+   note="Colour strings are compared literally. Recorded findings (frozen by golden files): ellipse y not flipped, ellipse arcs ignored, font baseline written raw, text fill taken from stroke, grid inherits pen width.",
+   technique="exhaustive enumeration of command sequences, every transition compared against a reference pen state machine"),
  "C16": dict(category="exploration", design="§3 C16",
    text="Enumerated programs (all nestings to depth 2/3 with scoping/control features and trace globals; every well-typed expression tree with <= 2 operators assigned to a global; constructs the compiler may not know; non-ASCII strings; map insertion order; element stores with bad indices; nested composites and repetition) are compiled; a compile error is accepted; otherwise no statement may be left without code and after VM.Run every global has the value the tree-walking evaluator computes (repr form via the verif hook), or both fail correspondingly (division/modulo by zero only on the VM).",
    note="The evaluator is the reference (itself checked against the specification by C01/C09-C12). Recorded finding: map key insertion order on the VM.",
